@@ -442,9 +442,10 @@ Feed(good) ==
                                       ELSE [e |-> "rxdefect", t |-> 0, c |-> c - 1, why |-> "crc"])>>,
                   [op |-> "feed", c |-> c - 1, good |-> good, id |-> id])
 
+\* (after the peer's EOF the transport no longer reads: a later link error shows only as a failing write)
 PeerReset ==
   \E c \in Cn(S) :
-    /\ S.conn[c] \in {"up", "half"}
+    /\ S.conn[c] = "up"
     /\ EnvStep([S EXCEPT !.conn[c] = "lost", !.ready = Append(@, <<"lost", c>>), !.stalled[c] = FALSE, !.armStall[c] = FALSE],
                EndStallEv(S, c) \o <<Ev(S, [e |-> "lost", t |-> 0, c |-> c - 1])>>, [op |-> "peer_reset", c |-> c - 1])
 
